@@ -20,7 +20,13 @@ pub fn export(db: &DbIndex) -> Index {
 fn export_modules(db: &DbIndex) -> Vec<Module> {
     let type_index = db.get_type_index();
     let module_index = db.get_module_index();
-    let modules = module_index.get_module_infos();
+    // the index hands these out in hash order: sort for reproducible output
+    let mut modules = module_index.get_module_infos();
+    modules.sort_by(|a, b| {
+        a.full_module_name
+            .cmp(&b.full_module_name)
+            .then_with(|| a.file_id.cmp(&b.file_id))
+    });
     let vfs = db.get_vfs();
 
     modules
@@ -67,7 +73,9 @@ fn export_modules(db: &DbIndex) -> Vec<Module> {
 fn export_types(db: &DbIndex) -> Vec<Type> {
     let type_index = db.get_type_index();
     let module_index = db.get_module_index();
-    let types = type_index.get_all_types();
+    // the index hands these out in hash order: sort for reproducible output
+    let mut types = type_index.get_all_types();
+    types.sort_by(|a, b| a.get_full_name().cmp(b.get_full_name()));
 
     types
         .into_iter()
@@ -96,7 +104,9 @@ fn export_globals(db: &DbIndex) -> Vec<Global> {
     let module_index = db.get_module_index();
     let type_index = db.get_type_index();
     let vfs = db.get_vfs();
-    let globals = global_index.get_all_global_decl_ids();
+    // the index hands these out in hash order: sort for reproducible output
+    let mut globals = global_index.get_all_global_decl_ids();
+    globals.sort_by_key(|global| (global.file_id, global.position));
 
     globals
         .into_iter()
